@@ -7,3 +7,4 @@ import Dnp3.Driver.Outstation
 import Dnp3.Model.OutstationTrace
 import Dnp3.Driver.Convert
 import Dnp3.Driver.Parse
+import Dnp3.Driver.Ffi
